@@ -984,6 +984,13 @@ func ensureServiceTxn(tx WriteTxn, idx uint64, node string, preserveIndexes bool
 		if entry.IsSameService(serviceNode) {
 			return nil
 		}
+		// The instance is being re-registered under another service name, so
+		// queries for the old name lose a result and must see their index move.
+		if serviceNode.ServiceName != entry.ServiceName {
+			if err := catalogServiceLosesInstanceTxn(tx, idx, serviceNode); err != nil {
+				return err
+			}
+		}
 	}
 	if !preserveIndexes {
 		entry.ModifyIndex = idx
@@ -994,6 +1001,37 @@ func ensureServiceTxn(tx WriteTxn, idx uint64, node string, preserveIndexes bool
 
 	// Insert the service and update the index
 	return catalogInsertService(tx, entry)
+}
+
+// catalogServiceLosesInstanceTxn updates the indexes of the service name that
+// an instance is moving away from, the same way deleting the instance would: the
+// service index is bumped while other instances remain, otherwise it is
+// garbage collected and the extinction index takes over.
+func catalogServiceLosesInstanceTxn(tx WriteTxn, idx uint64, leaving *structs.ServiceNode) error {
+	entMeta := &leaving.EnterpriseMeta
+	iter, err := tx.Get(tableServices, indexService, Query{
+		Value:          leaving.ServiceName,
+		EnterpriseMeta: *entMeta,
+		PeerName:       leaving.PeerName,
+	})
+	if err != nil {
+		return fmt.Errorf("failed service lookup: %s", err)
+	}
+	for raw := iter.Next(); raw != nil; raw = iter.Next() {
+		other := raw.(*structs.ServiceNode)
+		if other.Node == leaving.Node && other.ServiceID == leaving.ServiceID {
+			continue
+		}
+		return catalogUpdateServiceIndexes(tx, idx, leaving.ServiceName, entMeta, leaving.PeerName)
+	}
+
+	_, serviceIndex, err := catalogServiceMaxIndex(tx, leaving.ServiceName, entMeta, leaving.PeerName)
+	if err == nil && serviceIndex != nil {
+		if err := tx.Delete(tableIndex, serviceIndex); err != nil {
+			return fmt.Errorf("[FAILED] deleting serviceIndex %s: %s", leaving.ServiceName, err)
+		}
+	}
+	return catalogUpdateServiceExtinctionIndex(tx, idx, entMeta, leaving.PeerName)
 }
 
 // assignServiceVirtualIP assigns a virtual IP to the target service and updates
